@@ -95,7 +95,8 @@ theorem Inv_executionAllowed_ok_iff_spec {X : Type} (x : X) (args : Node) (undef
       ∃ ds, Chain.loadProofs (fun c => (ldG c).map (toDlg undef pol)) g.proof = .ok ds ∧
         Chain.PrincipalSpec (toInv x args g) ds ∧ Chain.CommandSpec (toInv x args g) ds ∧
         Chain.TimeSpec now (toInv x args g) ds ∧ Chain.PolicySpec ds args := by
-  rw [Inv_executionAllowed_is_shell, Inv_executionAllowed_ok_iff, Inv_loadProofs_eq extGet loader ldG hl g, model_loadProofs]
+  rw [Inv_executionAllowed_is_shell, Inv_executionAllowed_ok_iff, model_loadProofs]
+  simp only [Inv_loadProofs_ok_iff extGet loader ldG hl g]
   cases hm : g.proof.mapM ldG with
   | none => simp
   | some gs =>
@@ -115,7 +116,7 @@ theorem Inv_executionAllowed_ok_iff_spec {X : Type} (x : X) (args : Node) (undef
       cases Chain.verifyArgs (gs.map (toDlg undef pol)) args <;> simp [Except.mapError]
     constructor
     · rintro ⟨ds, hds, h1, h2, h3⟩
-      have : ds = gs := (Except.ok.inj hds).symm
+      have : ds = gs := (Option.some.inj hds).symm
       subst this
       exact ⟨_, rfl, (e1.1 h1).1, (e1.1 h1).2, e2.1 h2, e3.1 h3⟩
     · rintro ⟨ds, hds, p1, p2, p3, p4⟩
